@@ -17,12 +17,15 @@ import (
 type KCase struct {
 	Prog  *kgen.Program `json:"prog"`
 	CDNA3 bool          `json:"cdna3"`
+	// Packed (CDNA3 only): version-5 code object, work-item ids packed into v0
+	Packed bool `json:"packed,omitempty"`
 }
 
 func genKCase(t *rapid.T) KCase {
 	return KCase{
-		CDNA3: rapid.IntRange(0, 2).Draw(t, "cdna3") == 0,
-		Prog:  kgen.GenProgram(t, kgen.GenOpts{MaxItems: 400, MaxOps: 20, LDS: true, Partial: true, SubDword: true}),
+		CDNA3:  rapid.IntRange(0, 2).Draw(t, "cdna3") == 0,
+		Packed: rapid.Bool().Draw(t, "packed"),
+		Prog:   kgen.GenProgram(t, kgen.GenOpts{MaxItems: 400, MaxOps: 20, LDS: true, Partial: true, SubDword: true}),
 	}
 }
 
@@ -36,6 +39,7 @@ func negInline(o kgen.Op) bool {
 func RunKCase(c KCase) (res stats.Result) {
 	p := c.Prog
 	p.GFX9 = c.CDNA3
+	p.PackedIDs = c.CDNA3 && c.Packed
 	comp, err := p.Compile()
 	if err != nil {
 		panic(fmt.Sprintf("harness: program does not compile: %v", err))
@@ -84,7 +88,7 @@ func TestPropKernels(t *testing.T) {
 		r := RunKCase(c)
 		if r.Violation != "" {
 			c.Prog = kgen.Shrink(c.Prog, 300, func(q *kgen.Program) bool {
-				return RunKCase(KCase{Prog: q, CDNA3: c.CDNA3}).Violation != ""
+				return RunKCase(KCase{Prog: q, CDNA3: c.CDNA3, Packed: c.Packed}).Violation != ""
 			})
 			r = RunKCase(c)
 		}
